@@ -961,4 +961,44 @@ third input for the exactly covered first payment and invents a change output (t
 example : (transfer replayReaderStrict ⟨demoPre.cin, [], []⟩ 3 1 10).1.uout = [⟨1, 10⟩, ⟨3, 5⟩] ∧
     (transfer replayReader ⟨demoPre.cin, [], []⟩ 3 1 10).1.uout = [⟨1, 10⟩] := by decide
 
+/-! ### two submissions in flight (the harness op `race`) -/
+
+/-- Whichever of two transactions the node takes first: once it is accepted, the other one - pre-executed over the
+same earlier state, declaring a read of a key the first one overwrites - is refused.  (The versions of the first
+transaction are new: ids are hashes of distinct transactions, as in `stale_read_rejected`.) -/
+theorem second_of_conflicting_pair_refused (bks : List Bucket) (price fuel : Nat) (db : DB) (a b : Tx) (e : REntry)
+    (he : e ∈ b.kin) (hw : ∃ w ∈ a.kout, w.1 = e.1 ∧ w.2.1 = e.2.1) (hfresh : ∀ off, mkVer a.id off ≠ e.2.2)
+    (ha : (submit bks price fuel db a).2 = true) :
+    (submit bks price fuel (submit bks price fuel db a).1 b).2 = false := by
+  have hv : verify bks price fuel db a = true := by
+    by_cases h : verify bks price fuel db a = true
+    · exact h
+    · simp [submit, h] at ha
+  have hs : submit bks price fuel db a = (commit db a, true) := by simp [submit, hv]
+  rw [hs]
+  have hb := stale_read_rejected bks price fuel db b a e he hw hfresh
+  simp [submit, hb]
+
+/-- Two transactions each of which overwrites a key the other declares as read are never both accepted, in either
+order: every serial order of the two refuses the later one.  An execution that accepts both (seeded change C09-14:
+the key locks dropped before the batch is written) is therefore not an execution of `submit` in any order - the
+impl-side oracle of the `race` op (key `conflicting-submissions-both-...:key-version`) states exactly this. -/
+theorem conflicting_pair_at_most_one (bks : List Bucket) (price fuel : Nat) (db : DB) (a b : Tx) (ea eb : REntry)
+    (hea : ea ∈ a.kin) (hwb : ∃ w ∈ b.kout, w.1 = ea.1 ∧ w.2.1 = ea.2.1) (hfb : ∀ off, mkVer b.id off ≠ ea.2.2)
+    (heb : eb ∈ b.kin) (hwa : ∃ w ∈ a.kout, w.1 = eb.1 ∧ w.2.1 = eb.2.1) (hfa : ∀ off, mkVer a.id off ≠ eb.2.2) :
+    ((submit bks price fuel db a).2 = true → (submit bks price fuel (submit bks price fuel db a).1 b).2 = false) ∧
+    ((submit bks price fuel db b).2 = true → (submit bks price fuel (submit bks price fuel db b).1 a).2 = false) :=
+  ⟨second_of_conflicting_pair_refused bks price fuel db a b eb heb hwa hfa,
+   second_of_conflicting_pair_refused bks price fuel db b a ea hea hwb hfb⟩
+
+/-- a transaction that only READS a key the other overwrites does not make the pair unserialisable: taken first, it
+leaves the other one's reads current (the order the `race` oracle accepts) -/
+theorem reader_first_keeps_reads_current (db : DB) (a : Tx) (kin : List REntry)
+    (hdisj : ∀ e ∈ kin, ∀ w ∈ a.kout, ¬ (w.1 = e.1 ∧ w.2.1 = e.2.1))
+    (hcur : readsCurrent db kin = true) : readsCurrent (commit db a) kin = true := by
+  simp only [readsCurrent, List.all_eq_true, beq_iff_eq] at hcur ⊢
+  intro e he
+  rw [commit_untouched db a e.1 e.2.1 (fun w hw h => hdisj e he w hw h)]
+  exact hcur e he
+
 end XV.C09
